@@ -90,14 +90,15 @@ def run_ops(ops):
         k, el = op["op"], op.get("el", "")
         ev = {"op": k, "el": el, "res": "ok", "cls": ""}
         try:
+            alt = len(out) % 2 == 1   # the variadic add_*s(...) route every other step
             if k == "addopt":
-                b.add_option(mk("o", el))
+                b.add_options(mk("o", el)) if alt else b.add_option(mk("o", el))
             elif k == "addcopt":
-                b.add_command_option(mk("c", el))
+                b.add_command_options(mk("c", el)) if alt else b.add_command_option(mk("c", el))
             elif k == "addarg":
-                b.add_argument(mk("a", el))
+                b.add_arguments(mk("a", el)) if alt else b.add_argument(mk("a", el))
             elif k == "addname":
-                b.add_command_name(mk("n", el))
+                b.add_command_names(mk("n", el)) if alt else b.add_command_name(mk("n", el))
             elif k == "clearopts":
                 b.set_options()
             elif k == "clearcopts":
